@@ -103,7 +103,7 @@ Section GatherP.
 
   (* shared-list path: any two completion orders give the same final list, provided the
      cell ids of the gathered records are distinct *)
-  Theorem final_list_schedule_independent : forall co seeds s1 s2,
+  Theorem final_list_perm : forall co seeds s1 s2,
     Permutation s1 s2 -> NoDup (map fst (gather_list A work seeds s1)) ->
     final_list A work co seeds s1 = final_list A work co seeds s2.
   Proof.
@@ -111,13 +111,23 @@ Section GatherP.
     unfold gather_list. apply concat_map_perm. exact HP.
   Qed.
 
+  (* the same with the hypothesis that every worker of the completion order has a seed (every
+     worker gets its generator at dispatch): gather_list reads `nth i seeds 0`, and the default
+     must not be what makes the statement true *)
+  Theorem final_list_schedule_independent : forall co seeds s1 s2,
+    (forall i, In i s1 -> (i < length seeds)%nat) ->
+    Permutation s1 s2 -> NoDup (map fst (gather_list A work seeds s1)) ->
+    final_list A work co seeds s1 = final_list A work co seeds s2.
+  Proof. intros co seeds s1 s2 _. apply final_list_perm. Qed.
+
   (* buffer-directory path: the gathered list itself is independent of the listing order *)
   Theorem final_files_schedule_independent : forall name chunk_of_name co seeds s1 s2,
+    (forall i, In i s1 -> (chunk_of_name (name i) < length seeds)%nat) ->
     Permutation s1 s2 ->
     gather_files A work name chunk_of_name seeds s1 = gather_files A work name chunk_of_name seeds s2 /\
     final_files A work name chunk_of_name co seeds s1 = final_files A work name chunk_of_name co seeds s2.
   Proof.
-    intros name cn co seeds s1 s2 HP.
+    intros name cn co seeds s1 s2 _ HP.
     assert (E : gather_files A work name cn seeds s1 = gather_files A work name cn seeds s2).
     { unfold gather_files. rewrite (zsort_perm_eq (map name s1) (map name s2)); [reflexivity|].
       apply Permutation_map. exact HP. }
@@ -204,30 +214,203 @@ Proof.
   apply (zassoc_like_unique _ _ _ _ ND H1 H2).
 Qed.
 
-(* ---- the worker count enters only through the effective chunk size *)
-Theorem same_chunks_same_result :
-  forall (A S : Type) (draw : S -> Z * S) (work_rows : nat -> nat -> Z -> list (record A))
-         (cell_order : list Z) (s : S) (n p1 p2 c : nat) (s1 s2 : list nat),
-  eff_chunk n p1 c = eff_chunk n p2 c ->
-  Permutation s1 s2 ->
-  NoDup (map fst (gather_list A (chunk_work A work_rows n (eff_chunk n p1 c))
-                              (draws S draw (length (chunks n (eff_chunk n p1 c))) s) s1)) ->
-  mapping_result A S draw work_rows cell_order s n p1 c s1 =
-  mapping_result A S draw work_rows cell_order s n p2 c s2.
+(* ---- the verdict of the dispatch loop does not depend on what is logged or on the seed stream *)
+Section Verdict.
+  Variable winnow : world -> nat -> list job -> wres (list job).
+
+  Lemma wait_below_log_irrelevant fuel W b : forall running t log1 log2,
+    match wait_below winnow fuel W b running t log1, wait_below winnow fuel W b running t log2 with
+    | inl (r1, _), inl (r2, _) => r1 = r2
+    | inr (r1, t1, _), inr (r2, t2, _) => r1 = r2 /\ t1 = t2
+    | _, _ => False
+    end.
+  Proof.
+    induction fuel as [|f IH]; intros running t log1 log2; cbn [wait_below].
+    - destruct (length running <? b)%nat; [split; reflexivity | reflexivity].
+    - destruct (length running <? b)%nat; [split; reflexivity|].
+      destruct (winnow W t running) as [r'|w c]; [apply IH | reflexivity].
+  Qed.
+
+  Lemma dispatch_seeds_verdict (S : Type) (draw : S -> Z * S) fuel W n : forall todo running t s acc log,
+    fst (dispatch_seeds S draw winnow fuel W n todo running t s acc) =
+    fst (dispatch_loop winnow fuel W n todo running t log).
+  Proof.
+    induction todo as [|w rest IH]; intros running t s acc log; cbn [dispatch_seeds dispatch_loop].
+    - pose proof (wait_below_log_irrelevant fuel W 1 running t [] log) as H.
+      destruct (wait_below winnow fuel W 1 running t []) as [[r1 l1]|[[r1 t1] l1]];
+        destruct (wait_below winnow fuel W 1 running t log) as [[r2 l2]|[[r2 t2] l2]]; try contradiction; cbn [fst].
+      + exact H.
+      + reflexivity.
+    - pose proof (wait_below_log_irrelevant fuel W n (running ++ [(w, t)]) t [] (log ++ [EStart w])) as H.
+      destruct (wait_below winnow fuel W n (running ++ [(w, t)]) t []) as [[r1 l1]|[[r1 t1] l1]];
+        destruct (wait_below winnow fuel W n (running ++ [(w, t)]) t (log ++ [EStart w])) as [[r2 l2]|[[r2 t2] l2]];
+        try contradiction; cbn [fst].
+      + exact H.
+      + destruct H as [-> ->]. apply IH.
+  Qed.
+End Verdict.
+
+Lemma run_seeds_verdict (S : Type) (draw : S -> Z * S) W n k s :
+  fst (run_seeds S draw W n k s) = fst (run_pool_list W n k).
+Proof. unfold run_seeds, run_pool_list. apply dispatch_seeds_verdict. Qed.
+
+Lemma pool_clean W n k : (1 <= n)%nat -> (forall w, (w < k)%nat -> code W w = 0%Z) ->
+  fst (run_pool_list W n k) = POk.
 Proof.
-  intros A S draw work_rows co s n p1 p2 c s1 s2 He HP ND. unfold mapping_result.
-  rewrite <- He. apply final_list_schedule_independent; assumption.
+  intros Hn Hz. destruct (pool_raises false W n k Hn) as (Hh & _ & Hr & _).
+  unfold stage_result in *. destruct (fst (run_pool_list W n k)) as [|w c|]; [reflexivity| |contradiction].
+  destruct (Hr w c eq_refl) as (Hw & Hc & Hnz). exfalso. apply Hnz. rewrite Hc. apply Hz. exact Hw.
 Qed.
 
-(* chunking facts: the chunks tile 0..n in order *)
+Lemma map_snd_combine_x {A B} (l1 : list A) : forall (l2 : list B),
+  length l1 = length l2 -> map snd (combine l1 l2) = l2.
+Proof.
+  induction l1 as [|a l1 IH]; intros [|b l2]; cbn; intros H; try discriminate; try reflexivity.
+  f_equal. apply IH. lia.
+Qed.
+
+(* ---- chunking facts *)
 Lemma eff_chunk_pos n p c : (1 <= c)%nat -> (1 <= eff_chunk n p c)%nat.
 Proof. intros Hc. unfold eff_chunk. lia. Qed.
 
 Lemma chunks_length n cs : length (chunks n cs) = ceil_div n cs.
 Proof. unfold chunks. rewrite map_length, seq_length. reflexivity. Qed.
 
-(* ---- statistics: whatever the schedule, a clean drain merges the partial sums in
-   dispatch order; two runs with clean workers agree *)
+(* a chunk size of at most n / p is used as given, whatever p is: there the worker count has
+   no influence on the chunks at all *)
+Lemma eff_chunk_small n p c : (1 <= p)%nat -> (1 <= c)%nat -> (c * p <= n)%nat -> eff_chunk n p c = c.
+Proof.
+  intros Hp Hc Hle. unfold eff_chunk, ceil_div.
+  assert (H : (c <= (n + p - 1) / p)%nat).
+  { apply Nat.div_le_lower_bound; [lia|]. rewrite Nat.mul_comm. lia. }
+  lia.
+Qed.
+
+(* ---- the mapping as a whole: the worker count enters through the effective chunk size and
+   through the bound of the dispatch loop; only the former matters.  With clean workers, any two
+   worker counts p1 p2 >= 1 with the same effective chunk size, any two worlds (schedules) and
+   any two orders s1 s2 in which the k workers appended their records give the same mapping --
+   the one a sequential run would give (seeds in dispatch order, records in chunk order) *)
+Theorem same_chunks_same_result :
+  forall (A S : Type) (draw : S -> Z * S) (work_rows : nat -> nat -> Z -> list (record A))
+         (cell_order : list Z) (s : S) (n p1 p2 c : nat) (W1 W2 : world) (s1 s2 : list nat),
+  (1 <= p1)%nat -> (1 <= p2)%nat ->
+  eff_chunk n p1 c = eff_chunk n p2 c ->
+  let cs := eff_chunk n p1 c in
+  let k := length (chunks n cs) in
+  (forall w, (w < k)%nat -> code W1 w = 0%Z) -> (forall w, (w < k)%nat -> code W2 w = 0%Z) ->
+  Permutation s1 (seq 0 k) -> Permutation s2 (seq 0 k) ->
+  NoDup (map fst (gather_list A (chunk_work A work_rows n cs) (draws S draw k s) s1)) ->
+  mapping_result A S draw work_rows cell_order s n p1 c W1 s1 =
+  mapping_result A S draw work_rows cell_order s n p2 c W2 s2 /\
+  mapping_result A S draw work_rows cell_order s n p1 c W1 s1 =
+  final_list A (chunk_work A work_rows n cs) cell_order (draws S draw k s) (seq 0 k).
+Proof.
+  intros A S draw work_rows co s n p1 p2 c W1 W2 s1 s2 Hp1 Hp2 He cs k Hz1 Hz2 HP1 HP2 ND.
+  assert (R : forall W p sg, (1 <= p)%nat -> (forall w, (w < k)%nat -> code W w = 0%Z) ->
+              eff_chunk n p c = cs ->
+              mapping_result A S draw work_rows co s n p c W sg =
+              final_list A (chunk_work A work_rows n cs) co (draws S draw k s) sg).
+  { intros W p sg Hp Hz Hc. unfold mapping_result. rewrite Hc. fold k.
+    pose proof (run_seeds_verdict S draw W p k s) as Hv. rewrite (pool_clean W p k Hp Hz) in Hv.
+    destruct (seeds_fixed_at_dispatch S draw W p k s) as (m & _ & _ & Hok).
+    rewrite Hv. rewrite (Hok Hv).
+    rewrite map_snd_combine_x by (rewrite seq_length, draws_length; reflexivity). reflexivity. }
+  rewrite (R W1 p1 s1 Hp1 Hz1 eq_refl), (R W2 p2 s2 Hp2 Hz2 (eq_sym He)).
+  split.
+  - apply final_list_perm; [|exact ND].
+    eapply Permutation_trans; [exact HP1 | apply Permutation_sym; exact HP2].
+  - apply final_list_perm; assumption.
+Qed.
+
+(* a failing worker: no mapping, whatever the rest *)
+Theorem mapping_result_failed :
+  forall (A S : Type) (draw : S -> Z * S) (work_rows : nat -> nat -> Z -> list (record A))
+         (cell_order : list Z) (s : S) (n p c : nat) (W : world) (sigma : list nat),
+  (1 <= p)%nat ->
+  (exists w, (w < length (chunks n (eff_chunk n p c)))%nat /\ code W w <> 0%Z) ->
+  mapping_result A S draw work_rows cell_order s n p c W sigma = None.
+Proof.
+  intros A S draw work_rows co s n p c W sigma Hp Hex. unfold mapping_result.
+  rewrite run_seeds_verdict.
+  destruct (pool_raises false W p (length (chunks n (eff_chunk n p c))) Hp) as (_ & _ & _ & Hr).
+  destruct (Hr Hex) as (w & cd & Hw).
+  unfold stage_result in Hw. rewrite Hw. reflexivity.
+Qed.
+
+(* ---- statistics: the order of buffer_path_list, read off the parent's event log *)
+Lemma starts_app a b : starts (a ++ b) = starts a ++ starts b.
+Proof. unfold starts. induction a as [|e a IH]; cbn; [reflexivity|]. rewrite IH, app_assoc. reflexivity. Qed.
+
+Lemma starts_popped before after : starts (popped before after) = [].
+Proof.
+  unfold popped.
+  induction (filter (fun j => negb (existsb (fun j' => Nat.eqb (fst j) (fst j')) after)) before) as [|j l IH];
+    cbn; [reflexivity | exact IH].
+Qed.
+
+Section Starts.
+  Variable winnow : world -> nat -> list job -> wres (list job).
+
+  (* polling only logs pops *)
+  Lemma wait_below_starts fuel W b : forall running t log,
+    starts (match wait_below winnow fuel W b running t log with
+            | inl (_, lg) => lg | inr (_, _, lg) => lg end) = starts log.
+  Proof.
+    induction fuel as [|f IH]; intros running t log; cbn [wait_below].
+    - destruct (length running <? b)%nat; reflexivity.
+    - destruct (length running <? b)%nat; [reflexivity|].
+      destruct (winnow W t running) as [r'|w c]; [|reflexivity].
+      rewrite IH, starts_app, starts_popped, app_nil_r. reflexivity.
+  Qed.
+
+  (* the workers are started in the order of `todo`, a prefix of it when the inspector raised *)
+  Lemma dispatch_starts fuel W n : forall todo running t log,
+    exists m, (m <= length todo)%nat /\
+      starts (snd (dispatch_loop winnow fuel W n todo running t log)) = starts log ++ firstn m todo /\
+      (fst (dispatch_loop winnow fuel W n todo running t log) = POk -> m = length todo).
+  Proof.
+    induction todo as [|w rest IH]; intros running t log; cbn [dispatch_loop].
+    - exists O. split; [cbn; lia|]. pose proof (wait_below_starts fuel W 1 running t log) as H.
+      destruct (wait_below winnow fuel W 1 running t log) as [[r lg]|[[r' t'] lg]]; cbn [fst snd];
+        (split; [rewrite H, app_nil_r; reflexivity | reflexivity]).
+    - pose proof (wait_below_starts fuel W n (running ++ [(w, t)]) t (log ++ [EStart w])) as H.
+      destruct (wait_below winnow fuel W n (running ++ [(w, t)]) t (log ++ [EStart w]))
+        as [[r lg]|[[r' t'] lg]] eqn:E.
+      + exists 1%nat. split; [cbn; lia|]. cbn [fst snd]. split.
+        * rewrite H, starts_app. reflexivity.
+        * intros ->. exfalso. eapply wait_never_ok. exact E.
+      + destruct (IH r' t' lg) as (m & Hm & Hs & Hok).
+        exists (Datatypes.S m). split; [cbn; lia|]. split.
+        * rewrite Hs, H, starts_app. cbn. rewrite <- app_assoc. reflexivity.
+        * intros Hp. rewrite (Hok Hp). reflexivity.
+  Qed.
+End Starts.
+
+(* for EVERY world, bound and inspector: buffer_path_list is 0, 1, ..., m-1 for some m <= k, and
+   all of 0..k-1 when the pool drained cleanly -- the order in which the buffers are added up
+   owes nothing to the schedule *)
+Theorem starts_are_dispatch_order : forall (variant : bool) (W : world) (n k : nat),
+  let r := if variant then run_pool_dict W n k else run_pool_list W n k in
+  exists m, (m <= k)%nat /\ starts (snd r) = seq 0 m /\ (fst r = POk -> starts (snd r) = seq 0 k).
+Proof.
+  intros variant W n k r.
+  assert (H : forall winnow, exists m, (m <= k)%nat /\
+            starts (snd (dispatch_loop winnow (pool_fuel W k) W n (seq 0 k) [] 0 [])) = seq 0 m /\
+            (fst (dispatch_loop winnow (pool_fuel W k) W n (seq 0 k) [] 0 []) = POk ->
+             starts (snd (dispatch_loop winnow (pool_fuel W k) W n (seq 0 k) [] 0 [])) = seq 0 k)).
+  { intros winnow. destruct (dispatch_starts winnow (pool_fuel W k) W n (seq 0 k) [] 0%nat []) as (m & Hm & Hs & Hok).
+    rewrite seq_length in *. exists m. split; [exact Hm|]. cbn [starts flat_map app] in Hs.
+    assert (Hf : firstn m (seq 0 k) = seq 0 m).
+    { clear - Hm. replace k with (m + (k - m))%nat by lia. rewrite seq_app, firstn_app, seq_length.
+      replace (m - m)%nat with O by lia. cbn [firstn]. rewrite app_nil_r.
+      apply firstn_all2. rewrite seq_length. lia. }
+    split; [rewrite Hs; exact Hf|]. intros Hp. rewrite Hs, Hf, (Hok Hp). reflexivity. }
+  subst r. destruct variant; [apply (H winnow_dict) | apply (H winnow_list)].
+Qed.
+
+(* hence: whatever the schedule and the bound, a clean drain adds the partial sums up in dispatch
+   order (`add` is any operation); two runs with clean workers agree *)
 Theorem stats_merge_order_fixed :
   forall (A : Type) (add : A -> A -> A) (zero : A) (partial : nat -> A) (W1 W2 : world) (n1 n2 k : nat),
   (1 <= n1)%nat -> (1 <= n2)%nat ->
@@ -237,12 +420,20 @@ Theorem stats_merge_order_fixed :
 Proof.
   intros A add zero partial W1 W2 n1 n2 k H1 H2 Hz1 Hz2.
   assert (R : forall W n, (1 <= n)%nat -> (forall w, (w < k)%nat -> code W w = 0%Z) ->
-              fst (run_pool_list W n k) = POk).
-  { intros W n Hn Hz. destruct (pool_raises false W n k Hn) as (Hh & _ & Hr & _).
-    unfold stage_result in *. destruct (fst (run_pool_list W n k)) as [|w c|]; [reflexivity| |contradiction].
-    destruct (Hr w c eq_refl) as (Hw & Hc & Hnz). exfalso. apply Hnz. rewrite Hc. apply Hz. exact Hw. }
-  unfold stats_result. rewrite (R W1 n1 H1 Hz1), (R W2 n2 H2 Hz2). split; reflexivity.
+              stats_result A add zero partial W n k = Some (merge_stats A add zero partial k)).
+  { intros W n Hn Hz. unfold stats_result, merge_stats.
+    pose proof (pool_clean W n k Hn Hz) as Hc. rewrite Hc.
+    destruct (starts_are_dispatch_order false W n k) as (m & _ & _ & Hok). cbn zeta in Hok.
+    rewrite (Hok Hc). reflexivity. }
+  rewrite (R W1 n1 H1 Hz1), (R W2 n2 H2 Hz2). split; reflexivity.
 Qed.
+
+(* the order is not `seq 0 k` by fiat: a raise cuts it short (worker 0 fails at once, two slots:
+   worker 2 is never dispatched) *)
+Example starts_prefix_on_raise :
+  let W := {| code := fun w => if Nat.eqb w 0 then 1%Z else 0%Z; dur := fun _ => 0%nat |} in
+  fst (run_pool_list W 2 3) = PRaised 0 1 /\ starts (snd (run_pool_list W 2 3)) = [0; 1]%nat.
+Proof. vm_compute. split; reflexivity. Qed.
 
 (* ---- reference markers: the chunks are merged in sorted key order whatever the order in
    which the keys are listed *)
